@@ -337,14 +337,29 @@ func Encode(req int, op Op, nowNs int64) *Wire {
 			for ei, e := range s.Entries {
 				e.Metric = false
 				ee, x := mk(si, ei, e, true)
-				m := map[string]any{"message": ee.line, "timestamp": ee.ts / 1000000, "ddsource": "sim", "service": fmt.Sprintf("svc%d", si%2)}
+				m := map[string]any{"message": ee.line, "timestamp": ee.ts / 1000000, "ddsource": "sim"}
+				exp := map[string]string{"ddsource": "sim", "type": "datadog"}
+				// the optional members differ from entry to entry: each entry's stream is made of its own members only
+				switch (si + ei) % 4 {
+				case 0:
+					m["service"], m["hostname"], m["source_type"] = fmt.Sprintf("svc%d", si%2), "h1", "k8s"
+					exp["service"], exp["hostname"], exp["source_type"] = fmt.Sprintf("svc%d", si%2), "h1", "k8s"
+				case 1:
+					m["service"] = fmt.Sprintf("svc%d", si%2)
+					exp["service"] = fmt.Sprintf("svc%d", si%2)
+				case 3:
+					m["hostname"] = "h2"
+					exp["hostname"] = "h2"
+				}
 				var tags []string
 				for _, kv := range s.Labels {
 					if regexp.MustCompile(`^[a-z]+$`).MatchString(kv[0]) && regexp.MustCompile(`^[a-z0-9]+$`).MatchString(kv[1]) {
 						tags = append(tags, kv[0]+":"+kv[1])
+						exp[kv[0]] = kv[1]
 					}
 				}
 				m["ddtags"] = strings.Join(tags, ",")
+				x.Labels, x.LabelKey = exp, labelKey(exp)
 				arr = append(arr, m)
 				w.Rows = append(w.Rows, x)
 			}
